@@ -120,13 +120,18 @@ def period_keys(chk):
         a_now, a_other = ("param", fi.params[1]), ("param", fi.params[2])
         # collect the equality atoms the result depends on
         comps = []
+        comps_atoms = []
         bad = []
-        true_guards = []
-        for g, v in S.return_cases():
-            if canon(v) == canon(sym.TRUE):
-                true_guards.append(g)
-            for a, p in g:
+        rc = S.return_cases()
+        for g, v in rc:
+            cond_atoms = [a for a, p in g]
+            if canon(v) not in (canon(sym.TRUE), canon(sym.FALSE)):
+                cond_atoms.append(v)
+            for a in cond_atoms:
                 for at in _prims(a):
+                    if at in comps_atoms:
+                        continue
+                    key = None
                     if at[0] == "cmp" and at[1] == "==":
                         r = sym.to_rat(at[2])
                         atoms = list(r.atoms())
@@ -135,21 +140,19 @@ def period_keys(chk):
                             fx = sym.substitute(x, {a_other: a_now})
                             fy = sym.substitute(y, {a_other: a_now})
                             if canon(fx) == canon(fy) and (sym.contains(x, lambda n: n == a_other) != sym.contains(y, lambda n: n == a_other)):
-                                if canon(fx) not in comps:
-                                    comps.append(canon(fx))
-                                continue
-                        bad.append(at)
+                                key = canon(fx)
                     elif at[0] == "eq":
                         x, y = at[1], at[2]
                         fx = sym.substitute(x, {a_other: a_now})
                         fy = sym.substitute(y, {a_other: a_now})
-                        if canon(fx) == canon(fy):
-                            if canon(fx) not in comps:
-                                comps.append(canon(fx))
-                            continue
+                        if canon(fx) == canon(fy) and (sym.contains(x, lambda n: n == a_other) != sym.contains(y, lambda n: n == a_other)):
+                            key = canon(fx)
+                    if key is None:
                         bad.append(at)
                     else:
-                        bad.append(at)
+                        comps_atoms.append(at)
+                        if key not in comps:
+                            comps.append(key)
         want = []
         for alt in alts:
             want.append(sorted([canon(chk.spec(src, now=a_now)) for src in alt], key=repr))
@@ -157,17 +160,27 @@ def period_keys(chk):
         chk.ob("C12.R2", ok, ALGOS, host, "period-key", "%s fires when the period key of the two dates differs; the key must be a consistent calendar key compared on both dates" % cls,
                where=fi.where, expected=" or ".join("{" + ", ".join(a) + "}" for a in alts), found="{%s}%s" % (", ".join(short(c, 60) for c in comps), ("; other tests: " + "; ".join(short(b, 80) for b in bad)) if bad else ""),
                sample={"class": cls, "key": [short(c, 60) for c in comps]})
-        # result: True iff some component differs (any), False otherwise
-        rc = S.return_cases()
-        vals = set(canon(v) for _, v in rc)
-        ok = vals == {canon(sym.TRUE), canon(sym.FALSE)}
-        for g, v in rc:
-            gg = sym.sat(g)
-            all_equal = all(_holds_eq(gg, c, a_now, a_other) for c in comps) if comps else False
-            if canon(v) == canon(sym.FALSE):
-                ok = ok and all_equal
-            else:
-                ok = ok and not all_equal
+        # result: True iff some component differs (any), False otherwise - judged on every assignment of the comparisons
+        import itertools
+        ok = bool(comps_atoms) and not bad
+        for bits in itertools.product((True, False), repeat=len(comps_atoms)):
+            if not ok:
+                break
+            gg = sym.sat(tuple(zip(comps_atoms, bits)))
+            res = None
+            for g, v in rc:
+                if all(sym.lit_holds(gg, a, p) for a, p in g if not (isinstance(a, tuple) and a and a[0] == "impl")):
+                    cv = canon(v)
+                    if cv == canon(sym.TRUE):
+                        res = True
+                    elif cv == canon(sym.FALSE):
+                        res = False
+                    elif sym.lit_holds(gg, cv, True):
+                        res = True
+                    elif sym.lit_holds(gg, cv, False):
+                        res = False
+                    break
+            ok = ok and res is (not all(bits))
         chk.ob("C12.R2", ok, ALGOS, host, "period-result", "the comparator is True exactly when some component of the key differs", where=fi.where)
 
 
